@@ -37,6 +37,7 @@ def run(ctx):
         ctx.note(f"C14/COUNT not applicable to this shape ({e}); repeats are decided by "
                  f"C14/ANCHOR and C14/TRIGGERS for REPEAT <= {3 if ctx.thorough else 2}")
     _anchor_component(ctx)
+    _anchor_component(ctx, provider="pytz")
     _anchor_manual(ctx)
     _triggers(ctx)
 
@@ -162,9 +163,9 @@ def read_times(it, alarms):
     return out
 
 
-def _anchor_component(ctx):
+def _anchor_component(ctx, provider="zoneinfo"):
     m = ctx.model
-    it = Interp(m)
+    it = Interp(m, provider=provider)
     vddd = ClassVal(m.cls("prop.vDDDTypes"))
     vdur = ClassVal(m.cls("prop.vDuration"))
     al_cls = m.cls("alarms.Alarms")
@@ -172,7 +173,7 @@ def _anchor_component(ctx):
     repeats = [None, 0, 1, 2] + ([3] if ctx.thorough else [])
     for cq, endp in (("cal.Event", "DTEND"), ("cal.Todo", "DUE")):
         ci = m.cls(cq)
-        for skind in ("date", "naive", "zoned"):
+        for skind in (("date", "naive", "zoned") if provider == "zoneinfo" else ("zoned",)):
             ends = ["none", "END", "DUR-days", "DUR-zero"] + (["DUR-sub"] if skind != "date" else [])
             for endspec in ends:
                 for (label, kind, related, subday), dur, rep in itertools.product(
@@ -198,8 +199,8 @@ def _anchor_component(ctx):
                     comp.attrs["subcomponents"].append(alarm)
                     exp = expected_terms(kind, related, dur, rep, 0, start_term, end_term)
                     n += 1
-                    key = (f"{ci.name} start={skind} end={endspec} trigger={label} "
-                           f"DURATION={dur} REPEAT={rep}")
+                    key = (f"{'[pytz] ' if provider == 'pytz' else ''}{ci.name} start={skind} end={endspec} "
+                           f"trigger={label} DURATION={dur} REPEAT={rep}")
                     try:
                         alarms = it.call(ClassVal(al_cls), [comp], {})
                         got = read_times(it, alarms)
@@ -211,11 +212,16 @@ def _anchor_component(ctx):
                         raise AnalysisError(f"alarm computation leaves the abstract interface "
                                             f"for [{key}]: {e}")
                     dropped = [t for t, tag in got if tag == "seconds-dropped"]
-                    ctx.check(sorted(t for t, _ in got) == sorted(exp) and not dropped,
+                    moved = [t for t, tag in got if tag == "instant-moved"]
+                    ctx.check(sorted(t for t, _ in got) == sorted(exp) and not dropped and not moved,
                               "C14/ANCHOR", key,
                               f"alarm times {[t for t, _ in got]}"
                               f"{' (time-of-day part of a duration dropped by date arithmetic)' if dropped else ''}"
+                              f"{' (a pytz wall clock with a stale offset is re-read in the zone: the instant moves by the DST delta)' if moved else ''}"
                               f", expected {exp}", al_cls.loc(), detail=", ".join(exp) or "no times")
+    if provider != "zoneinfo":
+        ctx.extra["component_cases_pytz"] = n
+        return
     # two alarms on one component: contributions are independent
     ci = m.cls("cal.Event")
     comp = it.call(ClassVal(ci), [], {})
